@@ -15,7 +15,7 @@
  * final observation must equal D, and after tear-down the allocation
  * accounting must be back at the mark.  k = 0 is the unfaulted re-run
  * (determinism of D).  Thorough tier: all pairs k1 < k2 for histories with
- * K <= 120.
+ * K <= 300 (one case per (history, k1), looping over k2 inside).
  */
 #define _GNU_SOURCE
 #include <complex.h>
@@ -1511,7 +1511,8 @@ static void build_histories(void)
     cal_hist(VNACAL_T16,  2, 2, 1, 0, 0, 0, 0, 0, X_MERR, T_ADD);
     cal_hist(VNACAL_T8,   2, 2, 2, 0, 0, 0, 2, 0, X_AUTO, T_FULL);
     cal_hist(VNACAL_UE14, 2, 2, 1, 0, 0, 0, 2, 0, X_AUTO, T_ADD);
-    cal_hist(VNACAL_T8,   2, 2, 1, 0, 0, 0, 2, 0, X_AUTO_MERR, T_ADD);
+    cal_hist(VNACAL_T8,   2, 2, 2, 0, 0, 0, 2, 0, X_AUTO_MERR, T_ADD);
+    cal_hist(VNACAL_E12,  2, 2, 2, 0, 0, 0, 2, 0, X_AUTO, T_ADD);
     cal_hist(VNACAL_T8,   2, 2, 2, 0, 0, 0, 0, 0, X_TRL, T_FULL);
     cal_hist(VNACAL_UE10, 2, 2, 1, 0, 0, 0, 0, 1, X_TRL, T_ADD);
     cal_hist(VNACAL_T8,   2, 2, 2, 0, 0, 0, 2, 0, X_CORR, T_ADD);
@@ -1678,13 +1679,12 @@ static int run_history(hist_t *h, long k1, long k2, obs_t *o, runinfo_t *ri,
 			    badcat - 1, m0);
 		    goto out;
 		}
-		if (multi && nf == 1) {
-		    snprintf(sig, sizeof(sig), "callbacks:%s", st->name);
-		    vf_fail(r, sig, "step %d (%s): one allocation failure "
-			    "reported %d times through the same callback "
-			    "(first: %s)", s, st->name, nonwarn, m0);
-		    goto out;
-		}
+		/*
+		 * More than one report of the same failure (a lower layer
+		 * and its caller both report) is accepted: the property
+		 * does not speak about the number of messages.
+		 */
+		(void)multi;
 		if (badmsg) {
 		    snprintf(sig, sizeof(sig), "message:%s", st->name);
 		    vf_fail(r, sig, "step %d (%s): empty or multi-line error "
@@ -1722,7 +1722,7 @@ out:
 /* ------------------------------------------------------------------ */
 /* case space                                                          */
 
-#define PAIR_KMAX 120
+#define PAIR_KMAX 300
 static long single_base[MAXH + 1];
 static long pair_base[MAXH + 1];
 static int inited;
@@ -1764,7 +1764,7 @@ static void init(int tier)
     for (int i = 0; i < NH; ++i) {
 	long K = H[i].K;
 	pair_base[i + 1] = pair_base[i] +
-	    ((tier >= 1 && K <= PAIR_KMAX) ? K * (K - 1) / 2 : 0);
+	    ((tier >= 1 && K <= PAIR_KMAX && K >= 2) ? K - 1 : 0);
     }
 }
 
@@ -1774,11 +1774,61 @@ static long count(int tier)
     return pair_base[NH];
 }
 
+/*
+ * one faulted execution of a history and its judgement; returns 0 when it
+ * held, -1 on a violation (already recorded in r)
+ */
+static int one_run(hist_t *h, int hi, long k1, long k2, vf_result *r,
+	runinfo_t *ri)
+{
+    static obs_t o;
+
+    (void)hi;
+    int rc = run_history(h, k1, k2, &o, ri, r);
+    if (rc != 0 || r->status == VF_VIOL) {
+	if (r->status != VF_VIOL)
+	    vf_fail(r, "driver", "history did not complete");
+	return -1;
+    }
+    const char *where = ri->faulted_step[0] >= 0 ?
+	h->st[ri->faulted_step[0]].name : "(none)";
+    if (k1 == 0) {
+	if (h->K == 0) {
+	    vf_fail(r, "driver:unfaulted", "unfaulted history is not clean");
+	    return -1;
+	}
+	if (ri->K != h->K) {
+	    vf_fail(r, "driver:nondeterministic-K", "unfaulted history made "
+		    "%ld allocations, %ld at start-up", ri->K, h->K);
+	    return -1;
+	}
+    }
+    char why[300];
+    if (obs_cmp(&h->ref, &o, why, sizeof(why)) != 0) {
+	char sig[200];
+	int fs = ri->faulted_step[ri->nfaults > 1 ? 1 : 0];
+	if (fs >= 0)
+	    where = h->st[fs].name;
+	snprintf(sig, sizeof(sig), "%s:%s", k1 == 0 ? "driver:digest" :
+		((ri->faulted_step[0] >= 0 &&
+		  (h->st[ri->faulted_step[0]].flags & F_INSERT)) ||
+		 (ri->faulted_step[1] >= 0 &&
+		  (h->st[ri->faulted_step[1]].flags & F_INSERT))) ?
+		"nonatomic-list-insert" : "state", where);
+	vf_fail(r, sig, "allocation #%ld%s failing: after the ENOMEM failure "
+		"in %s (step %d) was survived, the call repeated and the "
+		"history completed, the final state is not that of the "
+		"unfaulted run: %s", k1, k2 ? " and a second one" : "", where,
+		fs, why);
+	return -1;
+    }
+    return 0;
+}
+
 static void run(int tier, long idx, vf_result *r)
 {
     int hi;
-    long k1 = 0, k2 = 0;
-    static obs_t o;
+    long k1 = 0;
     runinfo_t ri;
 
     init(tier);
@@ -1786,78 +1836,72 @@ static void run(int tier, long idx, vf_result *r)
 	for (hi = 0; idx >= single_base[hi + 1]; ++hi)
 	    ;
 	k1 = idx - single_base[hi];
-    } else {
-	for (hi = 0; idx >= pair_base[hi + 1]; ++hi)
-	    ;
-	long p = idx - pair_base[hi];
-	/* enumerate pairs (k1 < k2), k2 = 2..K, k1 = 1..k2-1 */
-	k2 = 2;
-	while (p >= k2 - 1) {
-	    p -= k2 - 1;
-	    ++k2;
+	hist_t *h = &H[hi];
+	vf_desc(r, "history %d [%s] K=%ld, failing allocation #%ld", hi,
+		h->name, h->K, k1);
+	if (vf_verbose)
+	    printf("history %d: %s\n", hi, h->name);
+	if (one_run(h, hi, k1, 0, r, &ri) != 0) {
+	    vf_outcome(r, "violation");
+	    return;
 	}
-	k1 = p + 1;
+	const char *where = ri.faulted_step[0] >= 0 ?
+	    h->st[ri.faulted_step[0]].name : "(none)";
+	if (ri.nfaults > 0)
+	    r->nontrivial = 1;
+	if (k1 == 0)
+	    vf_outcome(r, "%c unfaulted re-run identical", h->family);
+	else if (ri.nfaults == 0)
+	    vf_outcome(r, "no fault landed");
+	else
+	    vf_outcome(r, "%s: %s", where, ri.failed_steps ?
+		    "ENOMEM, clean, repeat ok" :
+		    "fault absorbed, call succeeded");
+	return;
     }
+    /* pairs: case = (history, k1); every k2 > k1 inside */
+    for (hi = 0; idx >= pair_base[hi + 1]; ++hi)
+	;
+    k1 = idx - pair_base[hi] + 1;
     hist_t *h = &H[hi];
-    vf_desc(r, "history %d [%s] K=%ld, failing allocation #%ld%s", hi,
-	    h->name, h->K, k1, k2 ? " and a second one" : "");
-    if (k2)
-	vf_desc(r, "history %d [%s] K=%ld, failing allocations #%ld and #%ld",
-		hi, h->name, h->K, k1, k2);
+    long both = 0, one = 0, failed2 = 0, absorbed = 0;
+    vf_desc(r, "history %d [%s] K=%ld, failing allocation #%ld and each "
+	    "later one #%ld..#%ld in turn", hi, h->name, h->K, k1, k1 + 1,
+	    h->K);
     if (vf_verbose)
 	printf("history %d: %s\n", hi, h->name);
-
-    int rc = run_history(h, k1, k2, &o, &ri, r);
-    if (rc != 0 || r->status == VF_VIOL) {
-	if (r->status != VF_VIOL)
-	    vf_fail(r, "driver", "history did not complete");
-	vf_outcome(r, "violation");
-	return;
-    }
-    const char *where = ri.faulted_step[0] >= 0 ?
-	h->st[ri.faulted_step[0]].name : "(none)";
-    if (k1 == 0) {
-	if (h->K == 0) {
-	    vf_fail(r, "driver:unfaulted", "unfaulted history is not clean");
+    for (long k2 = k1 + 1; k2 <= h->K; ++k2) {
+	if (vf_verbose)
+	    printf(" -- pair (%ld, %ld)\n", k1, k2);
+	if (one_run(h, hi, k1, k2, r, &ri) != 0) {
+	    char add[80];
+	    snprintf(add, sizeof(add), " [second failing allocation: #%ld]",
+		    k2);
+	    strncat(r->msg, add, sizeof(r->msg) - strlen(r->msg) - 1);
+	    vf_outcome(r, "violation");
 	    return;
 	}
-	if (ri.K != h->K) {
-	    vf_fail(r, "driver:nondeterministic-K", "unfaulted history made "
-		    "%ld allocations, %ld at start-up", ri.K, h->K);
-	    return;
-	}
+	if (ri.nfaults >= 2)
+	    ++both;
+	else
+	    ++one;
+	if (ri.failed_steps >= 2)
+	    ++failed2;
+	absorbed += ri.absorbed;
     }
-    char why[300];
-    if (obs_cmp(&h->ref, &o, why, sizeof(why)) != 0) {
-	char sig[200];
-	snprintf(sig, sizeof(sig), "%s:%s", k1 == 0 ? "driver:digest" :
-		(ri.faulted_step[0] >= 0 &&
-		 (h->st[ri.faulted_step[0]].flags & F_INSERT)) ?
-		"nonatomic-list-insert" : "state", where);
-	vf_fail(r, sig, "after the ENOMEM failure in %s (step %d) was "
-		"survived, the call repeated and the history completed, the "
-		"final state is not that of the unfaulted run: %s", where,
-		ri.faulted_step[0], why);
-	vf_outcome(r, "violation");
-	return;
-    }
-    if (ri.nfaults > 0)
+    if (both > 0)
 	r->nontrivial = 1;
-    if (k1 == 0)
-	vf_outcome(r, "%c unfaulted re-run identical", h->family);
-    else if (ri.nfaults == 0)
-	vf_outcome(r, "no fault landed (index beyond the faulted run)");
-    else if (k2 == 0)
-	vf_outcome(r, "%s: %s", where, ri.failed_steps ?
-		"ENOMEM, clean, repeat ok" : "fault absorbed, call succeeded");
-    else
-	vf_outcome(r, "pair: %d landed, %d call(s) failed clean, %d absorbed",
-		ri.nfaults, ri.failed_steps, ri.absorbed);
+    vf_outcome(r, "pairs %c: both landed in %s runs, two clean failures in "
+	    "%s, absorbed %s", h->family,
+	    both == 0 ? "no" : both == h->K - k1 ? "all" : "some",
+	    failed2 == 0 ? "none" : failed2 == both ? "all of them" : "some",
+	    absorbed ? "some" : "none");
 }
 
 vf_driver vf_drv = {
     .property = "C12",
-    .rule = "an allocation failure was injected into a libvna call and the "
+    .rule = "an allocation failure was injected into a libvna call (for the "
+	"pair cases: both failures landed in at least one run) and the "
 	"history was carried through to the comparison of the final "
 	"observable state with the unfaulted run",
     .bfs = 0,
